@@ -619,6 +619,9 @@ def gen_truss(rng):
         for b in s.bars:
             if k in (b["n1"], b["n2"]):
                 t = Fr(0) if b["n1"] == k else Fr(1)
+                if rng.random() < 0.4:
+                    # written a hair inside the bar: the code identifies positions within 1e-10 of an end with that end
+                    t = Fr(rng.choice(["0.00000000005", "3e-12"])) if t == 0 else Fr(rng.choice(["0.99999999995", "0.9999999999999999"]))
                 s.loads.append({"kind": "c", "term": rng.choice(["fx", "fy"]), "local": False, "bar": b["id"], "t": t,
                                 "v": Fr(rng.choice([-1, 1]) * rng.choice([100, 250, 1000]))})
                 break
